@@ -7,7 +7,8 @@ Three-way check per case:  real  = cola's `arnoldi` / `arnoldi_eigs` (NumPy back
                                    with NumPy (the failing-input oracle).
 
 real = model = spec -> ok;  real = model != spec -> a modelled defect, reported by its named clause
-(the clause of the `_partial` theorems in lean/ColaVerif/Properties/C15.lean);  real != model ->
+(the clause of the `_partial` theorems in lean/ColaVerif/Properties/C15.lean): KNOWN-FINDING if the clause is
+recorded for this property in /verif/known_findings.json, VIOLATION otherwise;  real != model ->
 search for an input on which the real code violates the property.
 
 Tolerances (documented, `compare: "tol"`):
@@ -39,23 +40,16 @@ MODULE = "ColaVerif.Properties.C15"
 EPS = 2.220446049250313e-16
 NOISE_REL = 1e-10     # a step norm <= NOISE_REL * |A| is rounding noise (a breakdown in exact arithmetic)
 
-# --------------------------------------------------------------------------------------------
-# PROVISIONAL: clauses treated as known findings until the maintainer decides whether the
-# defects are repaired in /repo or recorded in /verif/known_findings.json (then remove them here).
-#   noPaddingEigs : defect (a) — arnoldi_eigs takes eigenvalues of the zero-padded square buffer
-#   noClip        : clip(norm, tol/2) is absolute while the stopping test is relative: a step norm
-#                   in (0, tol/2) is divided by tol/2 (non-unit column, Arnoldi relation broken)
-#   stopExact     : after an early stop by the tolerance test with a non-zero norm the returned
-#                   full-size buffers do not satisfy A Q[:, :m] = Q H (unit column, zero H column)
-#   breakdownNotMasked : FLOATING-POINT ONLY (exact arithmetic: zeros, `Arnoldi.Inv.zero_after_breakdown`): a start vector
-#                   whose norm dropped to rounding noise keeps being stepped whenever the loop continues — in a batch
-#                   (another vector is still large), and for a single vector when the breakdown happens in the very
-#                   first step (the test `norm > tol*H[1,0]` is then relative to the noise itself and never fails);
-#                   each further step multiplies the noise by up to 2/tol: O(1) garbage columns in Q and H
-PROVISIONAL_KNOWN = {"noPaddingEigs", "noClip", "stopExact", "breakdownNotMasked"}
-# --------------------------------------------------------------------------------------------
+# Clauses of modelled defects are taken from /verif/known_findings.json (`common.known_clauses`); nothing is provisional.
+# Recorded for C15: noClip, stopExact, breakdownNotMasked (floating point only), krylov-complex-operand-real-operator.
+# Former defect (a) (`noPaddingEigs`) is repaired in /repo (commit 0459ce4) and `Arnoldi.trimPaddingInEigs = true` mirrors it;
+# the clause name is still produced by the oracle so that a regression shows up as a VIOLATION.
+PROVISIONAL_KNOWN = set()
+MIXED = "krylov-complex-operand-real-operator"
 
 WHAT = {
+    MIXED: "init_arnoldi allocates the Q/H buffers with dtype=A.dtype: a complex start vector on a real operator silently loses its "
+           "imaginary part (Q[:,0] = Re(v/|v|), not a unit vector), everything downstream is computed from the truncated vector",
     "noPaddingEigs": "arnoldi_eigs hands the square part of the whole zero-padded buffer (max_iters columns) to eig: "
                      "max_iters - steps spurious zero eigenvalues whenever fewer than max_iters steps ran (max_iters > n, or breakdown)",
     "noClip": "new_vec /= clip(norm, tol/2) is an absolute floor while the stopping test is relative (norm > tol*H[1,0]): a step "
@@ -160,7 +154,8 @@ def decode_model(ans, cplx):
     if eh is not None:
         eigsH = dec(eh, cplx) if len(eh) else np.zeros((0, 0))
     return {"Q": Q, "H": H, "steps": ans["steps"], "iterations": ans["iterations"],
-            "errors": np.real(dec(ans["errors"], cplx)) if ans["errors"] else np.zeros(0), "eigsH": eigsH}
+            "errors": np.real(dec(ans["errors"], cplx)) if ans["errors"] else np.zeros(0), "eigsH": eigsH,
+            "trim": ans.get("trimPaddingInEigs")}
 
 
 # ------------------------------------------------------------------ generators
@@ -280,6 +275,13 @@ def stream(ctx, g):
             out.append(make_case(g, n, "nonsym", bool(g.integers(2)), n, 1e-7, ["generic"], eigs=False, scale=1e-9, stream="C"))
             out.append(make_case(g, n, "normal", bool(g.integers(2)), n + 1, 0.5, ["generic"], eigs=False, stream="C"))
             out.append(make_case(g, n, "nonnormal", False, n, 0.9, ["generic", "generic"], stream="C"))
+        # D. real operator, complex start vector (dtype promotion)
+        for n in [2, 4, 7]:
+            c = make_case(g, n, "nonsym", True, n, 1e-7, ["generic"], eigs=False, stream="D")
+            Ar = fromjson(c["A"], True).real
+            c["A"] = tojson(Ar.astype(complex))
+            c["mixed"] = True
+            out.append(c)
     return out
 
 
@@ -289,6 +291,8 @@ def eval_real(case):
     from cola.linalg.decompositions.arnoldi import arnoldi, arnoldi_eigs
     cplx = case["complex"]
     A = fromjson(case["A"], cplx)
+    if case.get("mixed"):
+        A = np.ascontiguousarray(A.real)          # real operator, complex start vector
     V = fromjson(case["V"], cplx)                 # (k, n)
     k = V.shape[0]
     Aop = cola.ops.Dense(A)
@@ -335,10 +339,16 @@ def compare_real_model(case, real, model):
     mism = []
     if real["Q"].shape != model["Q"].shape or real["H"].shape != model["H"].shape:
         return [f"shapes real Q{real['Q'].shape} H{real['H'].shape} model Q{model['Q'].shape} H{model['H'].shape}"]
-    if real["iterations"] != model["iterations"]:
-        mism.append(f"iterations real={real['iterations']} model={model['iterations']}")
-        return mism
     steps = model["steps"]
+    if real["iterations"] != model["iterations"]:
+        # the stopping test compares the last norm with tol*H[1,0]; if that norm is rounding noise in both runs (a breakdown in
+        # exact arithmetic) the decision `noise > tol*noise` is not determined by the model: compare the common leading part only
+        steps = min(real["iterations"], model["iterations"]) - 1
+        noisy = steps >= 1 and all(real["H"][c][steps, steps - 1].real <= noise and model["H"][c][steps, steps - 1].real <= noise
+                                   for c in range(real["Q"].shape[0]))
+        if not noisy:
+            mism.append(f"iterations real={real['iterations']} model={model['iterations']}")
+            return mism
     for c in range(real["Q"].shape[0]):
         Qr, Hr, Qm, Hm = real["Q"][c], real["H"][c], model["Q"][c], model["H"][c]
         jr, jm = first_small(Hr, steps, noise), first_small(Hm, steps, noise)
@@ -357,8 +367,12 @@ def compare_real_model(case, real, model):
         Mm = Hr.shape[1]
         struct_mask = np.tril(np.ones_like(Hr, dtype=bool), -2)
         struct_mask[:, steps:] = True
-        if ((Hr != 0) & struct_mask).any() != ((Hm != 0) & struct_mask).any() or (np.abs(Qr[:, steps + 1:]).max(initial=0) != 0) != (np.abs(Qm[:, steps + 1:]).max(initial=0) != 0):
+        if real["iterations"] == model["iterations"] and (
+                ((Hr != 0) & struct_mask).any() != ((Hm != 0) & struct_mask).any()
+                or (np.abs(Qr[:, steps + 1:]).max(initial=0) != 0) != (np.abs(Qm[:, steps + 1:]).max(initial=0) != 0)):
             mism.append(f"col {c}: structural zeros differ")
+    if real["iterations"] != model["iterations"]:
+        return mism
     if len(real["errors"]) != len(model["errors"]):
         mism.append(f"len(errors) real={len(real['errors'])} model={len(model['errors'])}")
     elif len(real["errors"]):
@@ -508,6 +522,8 @@ def compare_eigs(case, real, model):
     sc = max(1.0, an)
     noise = NOISE_REL * an
     ev_m = model_eigs(model)
+    if real["iterations"] != model["iterations"]:
+        return []           # noise-determined stop (see compare_real_model)
     steps = model["steps"]
     if first_small(real["H"][0], steps, noise) < steps - 1:
         return [] if len(ev_m) == len(real["eigvals"]) else ["number of eigenvalues differs"]   # amplified noise: not comparable
@@ -561,6 +577,15 @@ class Engine:
         ctx = self.ctx
         mism = compare_real_model(case, real, model) + (compare_eigs(case, real, model) if not ("exception" in real or "error" in model) else [])
         fails = spec_check(case, real)
+        if case.get("mixed") and (mism or fails) and "Q" in real:
+            # real operator, complex operand: the Lean model has one scalar type (it computes in the promoted dtype, as the
+            # property demands); the defect mechanism — buffers allocated in A.dtype — is confirmed directly on the real output
+            V = fromjson(case["V"], True)
+            trunc = (not np.iscomplexobj(real["Q"])) and np.abs(V.imag).max() > 0 and all(
+                np.allclose(real["Q"][c][:, 0], (V[c] / np.linalg.norm(V[c])).real, atol=1e-12) for c in range(V.shape[0]))
+            if trunc:
+                mism = []
+                fails = [(f[0], MIXED, f[2]) for f in fails] or [("first-column", MIXED, "Q is real although the start vector is complex")]
         if mism:
             self.dist["outcomes"]["real!=model"] += 1
             hard = [f for f in fails if f[1] is None]
@@ -629,6 +654,8 @@ class Engine:
             model = decode_model(answers.get(i, {"error": "no answer from the Lean driver"}), c["complex"])
             self.account(c, real)
             self.judge(c, real, model)
+            sw = self.dist.setdefault("model_switch_trimPaddingInEigs", {})
+            sw[str(model.get("trim"))] = sw.get(str(model.get("trim")), 0) + 1
 
     def coverage(self):
         return {
@@ -680,6 +707,7 @@ def run(ctx):
         "theorems are about exact real/complex arithmetic; rounding (loss of orthogonality, noise after a breakdown) is outside the model",
         "tol > 0 and non-zero start vectors (tol = 0 with an exact breakdown, or a zero start vector, give NaN in the real code: 0/0)",
         "the Householder variant (use_householder=True) is outside the model",
-        "PROVISIONAL_KNOWN clauses %s are treated as known findings pending the maintainer's decision" % sorted(PROVISIONAL_KNOWN)])
+        "mixed dtypes (real operator, complex start vector) are outside the Lean model (one scalar type): the truncation mechanism is "
+        "confirmed on the real output by the harness (clause %s)" % MIXED])
     print(json.dumps({"outcomes": cov["outcomes"], "distinct_nontrivial": cov["distinct_nontrivial"], "clauses": cov["distributions"]["clauses"],
                       "gate": (gate or {}).get("obligations"), "wall_s": round(ctx.wall(), 1)}))
